@@ -107,6 +107,11 @@ def skipTS (c : Cfg) (ncols : Nat) : P Bool := do
   let r ← readTS c ncols (some (List.replicate ncols false))
   P.pure r.isSome
 
+/-- `sbdf_ts_create` / `sbdf_ts_add`: a table slice is the list of the column slices added, in
+    order (no check is made; the column count is compared with the metadata when reading) -/
+def tsCreate : TS := ⟨[]⟩
+def tsAdd (ts : TS) (cs : CS) : TS := ⟨ts.cols ++ [some cs]⟩
+
 /-- `sbdf_ts_write` (a NULL column — from a subset read — is refused by sbdf_cs_write) -/
 def writeTS (c : Cfg) (ts : TS) : WOut :=
   secWrite 3 ++ writeInt32 c ts.cols.length ++
@@ -115,6 +120,12 @@ def writeTS (c : Cfg) (ts : TS) : WOut :=
     | none => WOut.err .argNull))
 
 def writeTSEnd : WOut := secWrite 5
+
+/-- `sbdf_ts_write` of a slice created against table metadata `tm` (`sbdf_ts_create(tm, ..)`, or
+    returned by `sbdf_ts_read(.., tm, ..)`): a slice that does not have the columns of its metadata
+    is refused before anything is written (repair F26 — it could not be read back) -/
+def writeTSOf (c : Cfg) (tm : TM) (ts : TS) : WOut :=
+  if ts.cols.length ≠ tm.cols.length then WOut.err .colCountMismatch else writeTS c ts
 
 /-! ### whole file -/
 
@@ -125,7 +136,7 @@ structure Table where
 
 /-- the calls a writer makes, in order -/
 def writeFile (c : Cfg) (t : Table) : WOut :=
-  fhWrite ++ writeTM c t.tm ++ WOut.seqAll (t.slices.map (writeTS c)) ++ writeTSEnd
+  fhWrite ++ writeTM c t.tm ++ WOut.seqAll (t.slices.map (writeTSOf c t.tm)) ++ writeTSEnd
 
 /-- how the caller loop ended -/
 inductive LoopEnd where
